@@ -104,15 +104,19 @@ class Engine(ExprMixin, StmtMixin, CallMixin, EngineBase):
                     raise ContractError("%s: fragment anchors %r do not resolve" % (qual, frag))
                 body = fdef.body[i0:i1]
             params = list(c.params)
-        is_method = len(qual.split('.')) == 3 and params and params[0] == 'self'
+        self.check_views()
+        is_method = len(qual.split('@')[0].split('.')) == 3 and params and params[0] == 'self'
         for p in params:
             if is_method and p == 'self':
-                cls = '.'.join(qual.split('.')[:2])
+                cls = '.'.join(qual.split('@')[0].split('.')[:2])
                 env[p] = self.make_record(cls, st, c.self_fields, c.extra.get('dynamic', ()))
                 continue
             if p not in c.params:
                 raise ContractError("%s: parameter %s has no declared type" % (qual, p))
             env[p] = self.make_param(p, c.params[p], st)
+        for fv_, t in c.extra.get('free', {}).items():
+            # a nested function verified as a unit of its own: its free variables are arbitrary values of their type
+            env[fv_] = self.make_param(fv_, parse_type(t), st)
         st.fid = st.new_frame(env)
         self.entry_fid = st.fid
         for g, t in c.ghost.items():
@@ -201,6 +205,11 @@ class Engine(ExprMixin, StmtMixin, CallMixin, EngineBase):
         return ob
 
     def adapt_result(self, res, t, st):
+        ra = self.cur[0].extra.get('result_abs')
+        if ra is not None:
+            # the concrete result is viewed through the abstraction the callers use (e.g. a sort key as an abstract
+            # ordered value with a length and a last component); the abstraction function states the link
+            return ra(self, st, res)
         return res
 
     def function_info(self, qual):
